@@ -65,6 +65,9 @@ HULLS = {
     "prism": [[0, 0, -2], [2, 0, -2], [0, 2, -2], [0, 0, 2], [2, 0, 2], [0, 2, 2]],
     "needle": [[0, 0, 0], [8, 0, 0], [4, 1, 0], [4, 0, 1]],
     "wedge": [[-2, -1, 0], [2, -1, 0], [2, 1, 0], [-2, 1, 0], [-2, 0, 2], [2, 0, 2]],
+    # the mesh frame's origin lies outside the hull
+    "offcube": [[x + 3, y + 1, z] for x in (-1, 1) for y in (-1, 1) for z in (-1, 1)],
+    "offtetra": [[2, 2, 1], [4, 2, 1], [2, 4, 1], [2, 2, 3]],
 }
 
 
@@ -186,6 +189,13 @@ _FACETS = {}
 
 
 def hull_facets(V):
+    if len(V) > 16:
+        key = ("big", len(V), float(np.sum(V)))
+        if key not in _FACETS:
+            from scipy.spatial import ConvexHull
+            eq = ConvexHull(np.asarray(V, dtype=float)).equations      # n.x + c <= 0 inside, |n| = 1
+            _FACETS[key] = [((float(e[0]), float(e[1]), float(e[2])), -float(e[3])) for e in np.unique(np.round(eq, 12), axis=0)]
+        return _FACETS[key]
     key = tuple(map(tuple, V))
     if key not in _FACETS:
         F = set()
